@@ -2011,6 +2011,9 @@ func (e *lbEngine) execCall(in *lbInst, st *lstate, call *ssa.Call) *lstate {
 		return st
 	}
 	full := callee.String()
+	if o := callee.Origin(); o != nil {
+		full = o.String() // an instance of a generic function (slices.IndexFunc[[]Node, Node]) by the name of the generic
+	}
 	switch full {
 	case "unicode/utf8.DecodeRuneInString", "unicode/utf8.DecodeRune", "unicode/utf8.DecodeLastRuneInString":
 		size := linAtom(e.at.get(tupleKey{call, 1}, e.valName(call)+".size", false))
@@ -2174,6 +2177,7 @@ var lbSearchFns = map[string]bool{
 	"strings.Index": true, "strings.LastIndex": true, "bytes.Index": true, "bytes.LastIndex": true,
 	"strings.IndexByte": false, "strings.LastIndexByte": false, "bytes.IndexByte": false, "bytes.LastIndexByte": false,
 	"strings.IndexRune": false, "bytes.IndexRune": false, "strings.IndexAny": false, "strings.LastIndexAny": false, "bytes.IndexAny": false,
+	"slices.Index": false, "slices.IndexFunc": false,
 }
 
 // searchFound: v is the result of a search call and is known to be >= 0 in st: the needle fits at that index.
@@ -2186,7 +2190,11 @@ func (e *lbEngine) searchFound(in *lbInst, st *lstate, v ssa.Value) *lstate {
 	if callee == nil || len(call.Call.Args) != 2 {
 		return st
 	}
-	whole, ok := lbSearchFns[callee.String()]
+	cname := callee.String()
+	if o := callee.Origin(); o != nil {
+		cname = o.String()
+	}
+	whole, ok := lbSearchFns[cname]
 	if !ok {
 		return st
 	}
